@@ -477,11 +477,7 @@ func (m *c19) doRead(b *brModel, n int) *core.Violation {
 		if !eq(p[:k], m.data[b.pos:b.pos+int64(k)]) {
 			return m.viol("read-data-wrong", "Read(%d) at %d returned %q, want %q", n, b.pos, clip(p[:k]), clip(m.data[b.pos:b.pos+int64(k)]))
 		}
-		for _, c := range p[k:] {
-			if c != 0xEE {
-				return m.viol("read-contract", "Read(%d) returned n=%d but wrote beyond p[:n]", n, k)
-			}
-		}
+		// (p[k:] is not judged: io.Reader allows an implementation to use all of p as scratch space)
 		if err != nil && !(err == io.EOF && int64(k) == rem) {
 			return m.viol("read-contract", "Read(%d) at %d with %d left = (%d,%v): error although data remain", n, b.pos, rem, k, err)
 		}
